@@ -41,4 +41,127 @@ theorem fact_census_go_stmt : Gen.censusGoStmt.map (fun s => (s.1, s.2.1)) =
 /-- no random source and no environment read anywhere in the consensus packages -/
 theorem fact_census_no_rand_no_env : Gen.censusRand = [] ∧ Gen.censusGetenv = [] := by decide +kernel
 
+/-! ## In-memory state that outlives a transaction (C01: results must not depend on node-local state)
+
+Every package-level variable and every struct field that is a map, a channel, a `sync` primitive or is named like a
+cache, in the consensus packages (x/, app, types, utils, ethereum/, crypto/).  The audited list: constants in `var`
+form (store-key prefixes, ABI tables, codecs, defaults), the per-transaction containers of the context StateDB, the
+singleton codecs of `ethereum/eip712` (set once at start-up), `preventCommit` (a test switch of the StateDB that
+nothing sets), and the two `cache…Metadata` fields of the precompile instances (immutable metadata of an instance
+that is rebuilt for every EVM).  A memoisation added to a keeper, a precompile, a key type or a codec changes the
+list and has to be justified (or found by E-reexec / E-query, which compare instances with different histories). -/
+
+theorem fact_pkg_vars :
+    Gen.censusPkgVars = [
+      ("app/app.go", "DefaultNodeHome", "string"),
+      ("app/app.go", "HardForks", "[]upgrades.Fork"),
+      ("app/app.go", "Upgrades", "[]upgrades.Upgrade"),
+      ("app/modules.go", "ModuleBasics", "module.BasicManager"),
+      ("app/modules.go", "maccPerms", "map[string][]string"),
+      ("app/upgrades/v13_sample/constants.go", "Upgrade", "upgrades.Upgrade"),
+      ("crypto/hd/algorithm.go", "EthSecp256k1", "hd.ethSecp256k1Algo"),
+      ("crypto/hd/algorithm.go", "SupportedAlgorithms", "keyring.SigningAlgoList"),
+      ("crypto/hd/algorithm.go", "SupportedAlgorithmsLedger", "keyring.SigningAlgoList"),
+      ("crypto/keyring/options.go", "CreatePubkey", "func(key []byte) types.PubKey"),
+      ("crypto/keyring/options.go", "LedgerDerivation", "ledger.Secp256k1DerivationFn"),
+      ("crypto/keyring/options.go", "SkipDERConversion", "bool"),
+      ("crypto/keyring/options.go", "SupportedAlgorithms", "keyring.SigningAlgoList"),
+      ("crypto/keyring/options.go", "SupportedAlgorithmsLedger", "keyring.SigningAlgoList"),
+      ("ethereum/eip712/encoding.go", "aminoCodec", "*codec.LegacyAmino"),
+      ("ethereum/eip712/encoding.go", "protoCodec", "codec.Codec"),
+      ("ethereum/eip712/encoding.go", "txConfig", "client.TxConfig"),
+      ("types/chain_id.go", "evermintChainID", "*regexp.Regexp"),
+      ("types/chain_id.go", "regexChainID", "string"),
+      ("types/chain_id.go", "regexEIP155", "string"),
+      ("types/chain_id.go", "regexEIP155Separator", "string"),
+      ("types/chain_id.go", "regexEpoch", "string"),
+      ("types/chain_id.go", "regexEpochSeparator", "string"),
+      ("types/coin.go", "PowerReduction", "math.Int"),
+      ("types/hdpath.go", "BIP44HDPath", "string"),
+      ("types/hdpath.go", "Bip44CoinType", "uint32"),
+      ("x/cpc/abi/precompiled_info.go", "Bech32CpcInfo", "abi.CustomPrecompiledContractInfo"),
+      ("x/cpc/abi/precompiled_info.go", "Erc20CpcInfo", "abi.CustomPrecompiledContractInfo"),
+      ("x/cpc/abi/precompiled_info.go", "StakingCpcInfo", "abi.CustomPrecompiledContractInfo"),
+      ("x/cpc/abi/precompiled_info.go", "bech32Json", "[]byte"),
+      ("x/cpc/abi/precompiled_info.go", "erc20JSON", "[]byte"),
+      ("x/cpc/abi/precompiled_info.go", "stakingJson", "[]byte"),
+      ("x/cpc/types/codec.go", "Amino", "*codec.LegacyAmino"),
+      ("x/cpc/types/codec.go", "ModuleCdc", "*codec.ProtoCodec"),
+      ("x/cpc/types/keys.go", "CpcModuleAddress", "common.Address"),
+      ("x/cpc/types/keys.go", "KeyPrefixCustomPrecompiledContractMeta", "[]byte"),
+      ("x/cpc/types/keys.go", "KeyPrefixErc20CpcAllowance", "[]byte"),
+      ("x/cpc/types/keys.go", "KeyPrefixErc20CpcDenomToAddress", "[]byte"),
+      ("x/cpc/types/keys.go", "KeyPrefixParams", "[]byte"),
+      ("x/cpc/types/precompiles.go", "CpcBech32FixedAddress", "common.Address"),
+      ("x/cpc/types/precompiles.go", "CpcStakingFixedAddress", "common.Address"),
+      ("x/cpc/types/utils.go", "BigMaxUint256", "*big.Int"),
+      ("x/cpc/utils/abi.go", "abiArgsSingleArrayOfAddresses", "abi.Arguments"),
+      ("x/cpc/utils/abi.go", "abiArgsSingleBool", "abi.Arguments"),
+      ("x/cpc/utils/abi.go", "abiArgsSingleString", "abi.Arguments"),
+      ("x/cpc/utils/abi.go", "abiArgsSingleUint256", "abi.Arguments"),
+      ("x/cpc/utils/abi.go", "abiArgsSingleUint8", "abi.Arguments"),
+      ("x/evm/types/codec.go", "AminoCdc", "*codec.AminoCodec"),
+      ("x/evm/types/codec.go", "ModuleCdc", "*codec.ProtoCodec"),
+      ("x/evm/types/codec.go", "amino", "*codec.LegacyAmino"),
+      ("x/evm/types/compiled_contract.go", "ERC20Contract", "types.CompiledContract"),
+      ("x/evm/types/compiled_contract.go", "SimpleStorageContract", "types.CompiledContract"),
+      ("x/evm/types/compiled_contract.go", "TestMessageCall", "types.CompiledContract"),
+      ("x/evm/types/compiled_contract.go", "erc20JSON", "[]byte"),
+      ("x/evm/types/compiled_contract.go", "simpleStorageJSON", "[]byte"),
+      ("x/evm/types/compiled_contract.go", "testMessageCallJSON", "[]byte"),
+      ("x/evm/types/key.go", "KeyEip155ChainId", "[]byte"),
+      ("x/evm/types/key.go", "KeyPrefixBlockHash", "[]byte"),
+      ("x/evm/types/key.go", "KeyPrefixCode", "[]byte"),
+      ("x/evm/types/key.go", "KeyPrefixCodeHash", "[]byte"),
+      ("x/evm/types/key.go", "KeyPrefixParams", "[]byte"),
+      ("x/evm/types/key.go", "KeyPrefixStorage", "[]byte"),
+      ("x/evm/types/key.go", "KeyPrefixTransientTxGas", "[]byte"),
+      ("x/evm/types/key.go", "KeyPrefixTransientTxLogCount", "[]byte"),
+      ("x/evm/types/key.go", "KeyPrefixTransientTxReceipt", "[]byte"),
+      ("x/evm/types/key.go", "KeyTransientFlagIncreasedSenderNonce", "[]byte"),
+      ("x/evm/types/key.go", "KeyTransientFlagNoBaseFee", "[]byte"),
+      ("x/evm/types/key.go", "KeyTransientSenderPaidFee", "[]byte"),
+      ("x/evm/types/key.go", "KeyTransientTxCount", "[]byte"),
+      ("x/evm/types/params.go", "DefaultEVMDenom", "string"),
+      ("x/evm/types/params.go", "DefaultEnableCall", "bool"),
+      ("x/evm/types/params.go", "DefaultEnableCreate", "bool"),
+      ("x/evm/types/params.go", "DefaultExtraEIPs", "[]int64"),
+      ("x/evm/types/params.go", "EmptyBlockBloom", "types.Bloom"),
+      ("x/evm/types/params_legacy.go", "ParamStoreKeyChainConfig", "[]byte"),
+      ("x/evm/types/params_legacy.go", "ParamStoreKeyEVMDenom", "[]byte"),
+      ("x/evm/types/params_legacy.go", "ParamStoreKeyEnableCall", "[]byte"),
+      ("x/evm/types/params_legacy.go", "ParamStoreKeyEnableCreate", "[]byte"),
+      ("x/evm/types/params_legacy.go", "ParamStoreKeyExtraEIPs", "[]byte"),
+      ("x/evm/types/utils.go", "EmptyCodeHash", "[]byte"),
+      ("x/evm/vm/state_db.go", "preventCommit", "bool"),
+      ("x/feemarket/types/codec.go", "AminoCdc", "*codec.AminoCodec"),
+      ("x/feemarket/types/codec.go", "ModuleCdc", "*codec.ProtoCodec"),
+      ("x/feemarket/types/codec.go", "amino", "*codec.LegacyAmino"),
+      ("x/feemarket/types/params.go", "DefaultBaseFee", "uint64"),
+      ("x/feemarket/types/params.go", "DefaultMinGasPrice", "math.LegacyDec"),
+      ("x/feemarket/types/params.go", "ParamStoreKeyBaseFee", "[]byte"),
+      ("x/feemarket/types/params.go", "ParamStoreKeyMinGasPrice", "[]byte"),
+      ("x/feemarket/types/params.go", "ParamsKey", "[]byte"),
+      ("x/vauth/types/codec.go", "Amino", "*codec.LegacyAmino"),
+      ("x/vauth/types/codec.go", "ModuleCdc", "*codec.ProtoCodec"),
+      ("x/vauth/types/keys.go", "KeyPrefixProofExternalOwnedAccount", "[]byte")] := by decide +kernel
+
+theorem fact_mem_fields :
+    Gen.censusMemFields = [
+      ("app/antedl/cosmoslane/992c_reject_authz_msgs.go", "CLRejectAuthzMsgsDecorator.disabledNestedMsgs", "map[string]struct{}"),
+      ("app/app.go", "Evermint.ModuleBasics", "module.BasicManager"),
+      ("app/keepers/keepers.go", "AppKeepers.keys", "map[string]*types.KVStoreKey"),
+      ("app/keepers/keepers.go", "AppKeepers.memKeys", "map[string]*types.MemoryStoreKey"),
+      ("app/keepers/keepers.go", "AppKeepers.tkeys", "map[string]*types.TransientStoreKey"),
+      ("ethereum/eip712/message.go", "eip712MessagePayload.message", "map[string]interface{}"),
+      ("x/cpc/keeper/precompiles_erc20.go", "erc20CustomPrecompiledContract.cacheErc20Metadata", "*types.Erc20CustomPrecompiledContractMeta"),
+      ("x/cpc/keeper/precompiles_staking.go", "stakingCustomPrecompiledContract.cacheStakingMetadata", "*types.StakingCustomPrecompiledContractMeta"),
+      ("x/cpc/keeper/precompiles_util.go", "normalizedEvent.Attributes", "map[string]string"),
+      ("x/evm/vm/state_db.go", "cStateDb.selfDestructed", "vm.AccountTracker"),
+      ("x/evm/vm/state_db.go", "cStateDb.touched", "vm.AccountTracker"),
+      ("x/evm/vm/state_db_access_list.go", "AccessList2.elements", "map[common.Address]map[common.Hash]bool"),
+      ("x/evm/vm/state_db_access_list_geth.go", "accessList.addresses", "map[common.Address]int"),
+      ("x/evm/vm/state_db_snapshot.go", "RtStateDbSnapshot.selfDestructed", "vm.AccountTracker"),
+      ("x/evm/vm/state_db_snapshot.go", "RtStateDbSnapshot.touched", "vm.AccountTracker")] := by decide +kernel
+
 end Evermint.Facts.Determinism
